@@ -193,16 +193,17 @@ Theorem isort_perm_invariant {A} (leb : A -> A -> bool) :
   total leb -> transitive leb ->
   forall l1 l2, Permutation l1 l2 -> antisym_on leb l1 -> isort leb l1 = isort leb l2.
 Proof.
-  intros T R l1 l2 P AS. apply sorted_perm_unique; try now apply isort_sorted.
-  - eapply perm_trans; [apply Permutation_sym, isort_perm|].
+  intros T R l1 l2 P AS. apply (sorted_perm_unique leb); try now apply isort_sorted.
+  - eapply perm_trans; [apply Permutation_sym, (isort_perm leb)|].
     eapply perm_trans; [exact P|apply isort_perm].
-  - intros a b Ha Hb. apply AS; eapply Permutation_in; try apply Permutation_sym, isort_perm; assumption.
+  - intros a b Ha Hb.
+    apply AS; (eapply Permutation_in; [apply Permutation_sym, (isort_perm leb)|assumption]).
 Qed.
 
 Lemma isort_sorted_id {A} (leb : A -> A -> bool) :
   total leb -> transitive leb ->
   forall l, StronglySorted (lebP leb) l -> antisym_on leb l -> isort leb l = l.
 Proof.
-  intros T R l S AS. symmetry. apply sorted_perm_unique; auto.
+  intros T R l S AS. symmetry. apply (sorted_perm_unique leb); auto.
   - now apply isort_sorted. - apply isort_perm.
 Qed.
